@@ -366,6 +366,9 @@ func c05Universe() []string {
 	for _, q := range []string{"q'(report]' or 1=1 -- for the third quarter)'", "q'[a]' or 1=1", "nq'{x}' union select 1", "q'!a!' or 1=1 -- ", "q'<a>' or 1=1", "q'(a)' or q'[b]'='b'", "Q'|x|' or 1=1", "q'\xe9a\xe9' or 1=1", "1 or q'(a))' union select 1", "q'#a#'", "nq'(abc)'='abc'", "q'(a", "x' or q'[z]'=q'(z)' -- "} {
 		add(q)
 	}
+	for _, s := range []string{"hello </b", "</a onclick=alert(1)>", "</a x", "x </", "</p ", "</>", "<a title=\"><script>\"></b", "<script>", "<script>alert(1)</script>", "<iframe>", "<xss>", "<style>", "<object>", "<a b='", "<!--", "<a href="} {
+		add(s)
+	}
 	long := strings.Repeat("abcdefghij", 120)
 	for _, s := range []string{"<a href=\"http://example.com/" + long + "\">", "<a href=\"javascript:alert(1)//" + long + "\">", "<img src='" + long + "javascript:'>", "<a href=\"" + long + "\">x</a>", "<form action='data:" + long + "'>",
 		"x' or '" + long + "'='" + long, "1 union select '" + long + "'", long + " -- sp_password",
